@@ -13,6 +13,8 @@ import CookModel.Lemmas.SpansUtf8
 import CookModel.Lemmas.SpansTexts
 import CookModel.Lemmas.ReportPrep
 import CookModel.Lemmas.FrontMatterDoc
+import CookModel.Lemmas.SpansDataEv
+import CookModel.Lemmas.SpansDataUnit
 /-
   C04  Every reported source location is in bounds, on char boundaries, faithful.
 
@@ -785,5 +787,219 @@ example : ∃ fm, parseFrontmatter toyCharSpec "---\na: 1\n---\nb".toList = some
   intro i hi
   cases hi
   exact ⟨['a'], ": 1\n".toList, rfl, rfl⟩
+/-! ### wave 5 — "faithful" for the located items that carry DERIVED data, the retained locations and the AST with
+    ordered fragments, and the whole property in one statement
+
+  Vocabulary (Lemmas/SpansData*.lean): `pullToks cs input` is the token stream `PullParser` works on (the lexed input,
+  or the body lexed at `cooklang_offset` after front matter); `toksIn T sp` are the tokens of `T` lying inside the
+  span `sp`; `SpanText input T sp`: the characters of those tokens are exactly `input[sp]` (so `sp.end = sp.start +
+  their byte length`).  `readValue` / `readModifiers` / `readInterRef` are the pure readers; they are not extra model
+  code: `parse_value`, `parse_modifiers`, `parse_intermediate_ref_data` of the model are PROVED to return them in every
+  parser state (`readValue_is_parseValue`, `parseModifiersLoop_data`, `parseInterRef_data`). -/
+
+/-- **Every quantity value is the parse of the input slice at its span.**  For every input, every event of
+    `PullParser` and every quantity value `v` it carries (ingredient, cookware, timer; number, fraction, range or
+    text): let `toks` be the tokens of the document inside `v`'s span.  Then `toks` are adjacent tokens of the token
+    stream; their characters are exactly `input[span]`; the value the event carries is `readValue` of `toks` — a
+    number / fraction / range if `numeric_value` / `range_value` accept them (RANGE_VALUES decides about ranges), the
+    recovery value 1 if they report an error, otherwise the trimmed visible text
+    (`C04_text_value_is_trimmed_visible_text`) —; `parse_value` applied to `toks` in ANY parser state with the same
+    character tables and extensions returns exactly that value; and a scaling lock is the span of one `=` token whose
+    text `=` is `input[lock span]`.  The one exception is the quantity `parse` substitutes for a missing timer
+    quantity (value 1, documented span `(0, 0)`, always accompanied by an error). -/
+theorem C04_value_is_parse_of_slice {α : Type} [Arith α] (cs : CharSpec) (ext : Ext) (s : List Char) :
+    ∀ ev ∈ (pullEvents (α := α) cs ext s).1.toList, ∀ v ∈ ev.qvalues,
+      (toksIn (pullToks cs s) v.value.span <:+: pullToks cs s ∧
+       SpanText s (pullToks cs s) v.value.span ∧
+       v.value.val = readValue cs (ext.has Gen.EXT_RANGE_VALUES) v.value.span.start (toksIn (pullToks cs s) v.value.span) ∧
+       (∀ st : BP α, st.cs = cs → st.ext = ext →
+         (parseValue (toksIn (pullToks cs s) v.value.span) st).1.val = v.value.val) ∧
+       ∀ sp, v.lock = some sp → ∃ t, toksIn (pullToks cs s) sp = [t] ∧ t.kind = .eq ∧ t.text = ['='] ∧
+         sp = ⟨t.start, t.stop⟩ ∧ SpanText s (pullToks cs s) sp) ∨
+      v = recoverPQValue :=
+  fun ev hev => (pullEvents_evFull cs ext s ev hev).2.1
+
+/-- **The modifier bits are those of the characters in the modifier span.**  For every input and every ingredient or
+    cookware event: the tokens inside the span of its `Located<Modifiers>` are adjacent, spell `input[span]`, and the
+    bit set is `readModifiers` of them: by `C04_modifier_flag_iff_character` the flag of `@ & ? + -` is set iff that
+    character occurs among them outside a parenthesised reference group.  (No modifiers: empty span, empty set.) -/
+theorem C04_modifiers_are_read_from_span {α : Type} [Arith α] (cs : CharSpec) (ext : Ext) (s : List Char) :
+    ∀ ev ∈ (pullEvents (α := α) cs ext s).1.toList, ∀ m ∈ ev.modifierSets,
+      toksIn (pullToks cs s) m.span <:+: pullToks cs s ∧ SpanText s (pullToks cs s) m.span ∧
+      m.val = readModifiers (toksIn (pullToks cs s) m.span) :=
+  fun ev hev => (pullEvents_evFull cs ext s ev hev).2.2.1
+
+/-- **The intermediate-reference data is the reading of the input slice at its span.**  For every input and every
+    ingredient event with `Located<IntermediateData>`: the tokens inside its span are adjacent and not empty (the group
+    `( … )`), spell `input[span]`, and the data (relative?, section?, number) is `readInterRef` of them: white space
+    and block comments skipped, what remains is `n`, `~n`, `=n` or `=~n` with `n` an `int` token that fits `i16`. -/
+theorem C04_inter_ref_is_read_from_span {α : Type} [Arith α] (cs : CharSpec) (ext : Ext) (s : List Char) :
+    ∀ ev ∈ (pullEvents (α := α) cs ext s).1.toList, ∀ d ∈ ev.interRefs,
+      toksIn (pullToks cs s) d.span <:+: pullToks cs s ∧ toksIn (pullToks cs s) d.span ≠ [] ∧
+      SpanText s (pullToks cs s) d.span ∧ readInterRef (toksIn (pullToks cs s) d.span) = some d.val :=
+  fun ev hev => (pullEvents_evFull cs ext s ev hev).2.2.2
+
+/-- **The unit of a quantity is the text of the tokens up to the end of the quantity** (both syntaxes; what
+    ADVANCED_UNITS changes is only where the unit starts).  For every input, every ingredient or timer event and its
+    located quantity `q` with a unit `u`: there is an offset `o` — just after the `%`, or at the first word after the
+    value in the ADVANCED_UNITS syntax — such that the tokens of the document between `o` and `q.span.end` are adjacent
+    and not empty, spell `input[o .. q.span.end]`, `u` IS the text `BlockParser::text` assembles from them at `o`, and so
+    its characters are their visible characters.  (That every fragment of `u` is an ordered input slice is
+    `C04_event_text_fragments_ordered`; a cookware item keeps no unit.) -/
+theorem C04_unit_is_text_of_tokens_to_quantity_end {α : Type} [Arith α] (cs : CharSpec) (ext : Ext) (s : List Char) :
+    ∀ ev ∈ (pullEvents (α := α) cs ext s).1.toList, ∀ q ∈ ev.quantities, ∀ u, q.val.unit = some u → ∃ o,
+      toksIn (pullToks cs s) ⟨o, q.span.stop⟩ <:+: pullToks cs s ∧
+      toksIn (pullToks cs s) ⟨o, q.span.stop⟩ ≠ [] ∧
+      SpanText s (pullToks cs s) ⟨o, q.span.stop⟩ ∧
+      u = buildText o (toksIn (pullToks cs s) ⟨o, q.span.stop⟩) ∧
+      u.text = (toksIn (pullToks cs s) ⟨o, q.span.stop⟩).flatMap vis :=
+  pullEvents_unitFaithful cs ext s
+
+/-- non-vacuity: an ingredient event with a quantity carries one located quantity; the unit text of the tokens `g`
+    after a `%` at byte 6 -/
+example : (Ev.ingredient (α := Rat) ⟨⟨⟨⟨0⟩, ⟨0, 0⟩⟩, none, ⟨[⟨['a'], 1, false⟩], 1, false⟩, none,
+    some ⟨⟨⟨⟨.number (.regular 1), ⟨3, 4⟩⟩, none⟩, some ⟨[⟨['g'], 5, false⟩], 5, false⟩⟩, ⟨3, 6⟩⟩, none⟩, ⟨0, 7⟩⟩).quantities.length = 1 := rfl
+example : buildText 5 [⟨.word, ['g'], 5⟩] = ⟨[⟨['g'], 5, false⟩], 5, false⟩ := by decide
+
+/-- `readModifiers`, flag by flag: the flag of a modifier character is set iff a token of that kind occurs among the
+    tokens outside the parenthesised groups (`modTop false`); and in the token stream of any input the tokens the
+    readers look at ARE their characters: kind `at` is `@`, `and` is `&`, `question` is `?`, `plus` is `+`, `minus`
+    is `-`, `eq` is `=`, the parentheses, `~`, `/`, `.`. -/
+theorem C04_modifier_flag_iff_character (cs : CharSpec) (s : List Char) :
+    (∀ (toks : List Tok) (f : Nat),
+      f ∈ [Modifiers.RECIPE, Modifiers.REF, Modifiers.HIDDEN, Modifiers.OPT, Modifiers.NEW] →
+      (readModifiers toks).contains f = (modTop false toks).any (fun t => modifierFlag t.kind == some f)) ∧
+    (∀ t ∈ pullToks cs s,
+      (t.kind = .at → t.text = ['@']) ∧ (t.kind = .and → t.text = ['&']) ∧ (t.kind = .question → t.text = ['?']) ∧
+      (t.kind = .plus → t.text = ['+']) ∧ (t.kind = .minus → t.text = ['-']) ∧ (t.kind = .eq → t.text = ['=']) ∧
+      (t.kind = .openParen → t.text = ['(']) ∧ (t.kind = .closeParen → t.text = [')']) ∧
+      (t.kind = .tilde → t.text = ['~']) ∧ (t.kind = .slash → t.text = ['/']) ∧ (t.kind = .dot → t.text = ['.'])) :=
+  ⟨readModifiers_contains, fun t ht => sdat_marker_text (pullToks_kindText cs s t ht)⟩
+
+/-- a value that is neither a number nor a range is the trimmed VISIBLE text of its tokens: comments dropped, a line
+    break one space, an escape the escaped character; outer white space trimmed and runs of spaces collapsed
+    (`text_trimmed`).  The offset argument of `readValue` is immaterial. -/
+theorem C04_text_value_is_trimmed_visible_text {α : Type} [Arith α] (cs : CharSpec) (r : Bool) (o : Nat) (toks : List Tok)
+    (h : numOrRange (α := α) r toks = none) :
+    readValue (α := α) cs r o toks = .text (trimmedStr cs (toks.flatMap vis)) :=
+  readValue_text cs r o toks h
+
+/-- the hypothesis is satisfiable: `a b` is not a number; and the readers on concrete tokens:
+    `1/2` reads as a fraction, `(~ 1)` as a relative step reference, `@&(1)-` as RECIPE|REF|HIDDEN with the `1`
+    inside the group not counted; `toksIn` picks the tokens inside a span -/
+example : numOrRange (α := Rat) true [⟨.word, ['a'], 0⟩, ⟨.ws, [' '], 1⟩, ⟨.word, ['b'], 2⟩] = none := by decide
+example : readInterRef [⟨.openParen, ['('], 2⟩, ⟨.tilde, ['~'], 3⟩, ⟨.ws, [' '], 4⟩, ⟨.int, ['1'], 5⟩,
+    ⟨.closeParen, [')'], 6⟩] = some ⟨true, false, 1⟩ := by decide
+example : readInterRef [⟨.openParen, ['('], 2⟩, ⟨.minus, ['-'], 3⟩, ⟨.int, ['1'], 4⟩, ⟨.closeParen, [')'], 5⟩] = none := by
+  decide
+example : readModifiers [⟨.at, ['@'], 1⟩, ⟨.and, ['&'], 2⟩, ⟨.openParen, ['('], 3⟩, ⟨.minus, ['-'], 4⟩,
+    ⟨.closeParen, [')'], 5⟩, ⟨.minus, ['-'], 6⟩] = ⟨7⟩ := by decide
+example : readModifiers [⟨.at, ['@'], 1⟩, ⟨.and, ['&'], 2⟩, ⟨.openParen, ['('], 3⟩, ⟨.minus, ['-'], 4⟩,
+    ⟨.closeParen, [')'], 5⟩] = ⟨3⟩ := by decide
+example : toksIn [⟨.at, ['@'], 0⟩, ⟨.word, ['é'], 1⟩, ⟨.openBrace, ['{'], 3⟩, ⟨.int, ['2'], 4⟩, ⟨.closeBrace, ['}'], 5⟩]
+    ⟨4, 5⟩ = [⟨.int, ['2'], 4⟩] := by decide
+
+example : readValue (α := Rat) toyCharSpec true 0 [⟨.int, ['1'], 0⟩, ⟨.slash, ['/'], 1⟩, ⟨.int, ['2'], 2⟩] =
+    .number (.fraction 0 1 2 0) := by rfl
+example : readValue (α := Rat) toyCharSpec true 0 [⟨.word, ['a'], 0⟩, ⟨.ws, [' '], 1⟩, ⟨.ws, [' '], 2⟩, ⟨.word, ['b'], 3⟩] =
+    .text ['a', ' ', 'b'] := by decide
+
+/-! ### task 2: the locations the analysis retains and the AST, at full strength -/
+
+/-- **Every location the analysis retains and every AST node is an event's payload, so it has everything C04 says
+    about events.**  `EvAll cs ext input ev` = `EvSpansOKO 0 input ev` (every span valid, every text faithful with
+    ordered, disjoint, non-empty fragments inside the text's span: `C04_event_text_fragments_ordered`) and
+    `EvFaithful cs ext input ev` (the three theorems above) and `UnitFaithful` of its quantities
+    (`C04_unit_is_text_of_tokens_to_quantity_end`).  It holds of every event of `PullParser` and of the
+    metadata-only scanner; the `locations` the analysis keeps for ingredients and cookware are payloads of such events
+    (`KeptAll`, for `parse` and `parse_metadata`); and so is every block of the AST: front matter, metadata entry,
+    section as the event, a step item by item, a text block text by text (`KeptAstBlock`).  (Proved for an arbitrary
+    predicate on events: Lemmas/SpansKept.lean.) -/
+theorem C04_retained_and_ast_full {α : Type} [Arith α] (env : Env) (input : Str) :
+    (∀ ev ∈ (pullEvents (α := α) env.cs env.ext input).1.toList, EvAll env.cs env.ext input ev) ∧
+    (∀ ev ∈ (pullMetaEvents (α := α) env.cs env.ext input).1.toList, EvAll env.cs env.ext input ev) ∧
+    (∀ c, (parseRecipe (α := α) env input).output = some c → KeptAll (EvAll env.cs env.ext input) c) ∧
+    (∀ c, (parseMetadata (α := α) env input).output = some c → KeptAll (EvAll env.cs env.ext input) c) ∧
+    (∀ b ∈ (buildAstOfInput (α := α) env.cs env.ext input).blocks, KeptAstBlock (EvAll env.cs env.ext input) b) :=
+  ⟨pullEvents_evAll _ _ _, pullMetaEvents_evAll _ _ _,
+   kept_parseRecipe _ env input (pullEvents_evAll _ _ _),
+   kept_parseMetadata _ env input (pullMetaEvents_evAll _ _ _),
+   kept_buildAstOfInput _ env.cs env.ext input (pullEvents_evAll _ _ _)⟩
+
+/-- spelled out for one retained ingredient location: the fragments of each of its texts (name, alias, note, unit) are
+    ordered slices of the input inside the text's span, its modifier set is read from the tokens at the modifier span -/
+theorem C04_retained_ingredient_spelled {α : Type} [Arith α] (env : Env) (input : Str) (c : Col α)
+    (hc : (parseRecipe (α := α) env input).output = some c) :
+    ∀ li ∈ c.locIngr.toList,
+      (∀ t ∈ (Ev.ingredient li).texts, SpanOK 0 input t.span ∧ t.frags.Pairwise (fun f g => f.stop ≤ g.offset) ∧
+        ∀ f ∈ t.frags, f.text ≠ [] ∧ SliceAt 0 input f.offset f.text ∧ t.span.start ≤ f.offset ∧ f.stop ≤ t.span.stop) ∧
+      ModsFaithful env.cs input li.val.modifiers := by
+  intro li hli
+  have h := ((C04_retained_and_ast_full (α := α) env input).2.2.1 c hc).1 li hli
+  exact ⟨fun t ht => (h.1.1.texts t ht).spelled, h.1.2.2.1 _ (by simp [Ev.modifierSets])⟩
+
+/-- non-vacuity: `KeptAll` of a collector with one recorded ingredient says `Q` of that ingredient; an AST step block
+    says `Q` of each item -/
+example (Q : Ev Rat → Prop) (li : Loc (PIngredient Rat)) :
+    KeptAll Q ({ locIngr := #[li] } : Col Rat) ↔ Q (.ingredient li) := by
+  simp [KeptAll]
+example (Q : Ev Rat → Prop) (t : Text) : KeptAstBlock Q (.step [.text t]) ↔ Q (.text t) := by
+  simp [KeptAstBlock, AstItem.toEv]
+
+/-! ### task 3: the whole property in one statement -/
+
+/-- **C04 over the model, all clauses**, for every environment (character tables, extension set, converter) and every
+    input.  `C04_statement` (rows 1–6 as of the audit wave: every span of every event of both streams, of every AST
+    node, of every label of both reports and of every retained location is in bounds, on character boundaries,
+    `start ≤ end`; texts faithful; content events in source order; every label can be cut out), and in addition:
+    * (5a) the content events INCLUDING the front-matter event are in source order without overlapping, each a valid
+      span — full stream and metadata-only stream;
+    * (4, 5b, derived data) every event of both streams is `EvAll`: valid spans, every text with ordered, disjoint,
+      non-empty, faithful fragments inside the text's span, and every derived datum — quantity value, scaling lock,
+      modifier set, intermediate-reference data — is the reading of the tokens inside its span, which spell the input
+      slice at that span (`C04_value_is_parse_of_slice`, `C04_modifiers_are_read_from_span`,
+      `C04_inter_ref_is_read_from_span`), and every unit is the text of the tokens up to the end of its quantity
+      (`C04_unit_is_text_of_tokens_to_quantity_end`);
+    * (2, 3) the same of every location the analysis retains (`parse`, `parse_metadata`) and of every AST node;
+    * (6) the labels `write_report` hands to the renderer are the diagnostic's labels, sorted by (start, end), valid
+      spans, coloured `COLORS[k mod 7]` (the table is generated from src/error.rs), and no modelled panic site of the
+      label preparation is reachable, for every diagnostic of both reports.
+    `SpanOK` / `SliceAt` are statements about the UTF-8 bytes by `C04_span_ok_in_bytes`,
+    `C04_boundary_is_rust_is_char_boundary`, `C04_fragment_is_byte_slice`. -/
+def C04_statement_full : Prop :=
+  C04_statement ∧
+  ∀ (env : Env) (input : Str),
+    SrcOrderedF (pullEvents (α := Rat) env.cs env.ext input).1.toList ∧
+    (∀ ev ∈ (pullEvents (α := Rat) env.cs env.ext input).1.toList, ∀ sp, ev.srcSpanF = some sp → SpanOK 0 input sp) ∧
+    SrcOrderedF (pullMetaEvents (α := Rat) env.cs env.ext input).1.toList ∧
+    (∀ ev ∈ (pullMetaEvents (α := Rat) env.cs env.ext input).1.toList, ∀ sp, ev.srcSpanF = some sp → SpanOK 0 input sp) ∧
+    (∀ ev ∈ (pullEvents (α := Rat) env.cs env.ext input).1.toList, EvAll env.cs env.ext input ev) ∧
+    (∀ ev ∈ (pullMetaEvents (α := Rat) env.cs env.ext input).1.toList, EvAll env.cs env.ext input ev) ∧
+    (∀ c, (parseRecipe (α := Rat) env input).output = some c → KeptAll (EvAll env.cs env.ext input) c) ∧
+    (∀ c, (parseMetadata (α := Rat) env input).output = some c → KeptAll (EvAll env.cs env.ext input) c) ∧
+    (∀ b ∈ (buildAstOfInput (α := Rat) env.cs env.ext input).blocks, KeptAstBlock (EvAll env.cs env.ext input) b) ∧
+    (∀ d, (d ∈ (parseRecipe (α := Rat) env input).diags.toList ∨ d ∈ (parseMetadata (α := Rat) env input).diags.toList) →
+      ∃ cs : List (Span × String), assignColors 0 (sortLabels d.labels) = some cs ∧
+        cs.map (·.1) = sortLabels d.labels ∧
+        (sortLabels d.labels).Perm d.labels ∧
+        (sortLabels d.labels).Pairwise (fun a b => a.start < b.start ∨ (a.start = b.start ∧ a.stop ≤ b.stop)) ∧
+        (∀ l ∈ sortLabels d.labels, SpanOK 0 input l) ∧
+        ∀ k (hk : k < cs.length), reportColors[k % 7]? = some (cs[k].2)) ∧
+    (∀ r ∈ reportPrep input (parseRecipe (α := Rat) env input).diags.toList, ∀ site, r ≠ .panic site) ∧
+    (∀ r ∈ reportPrep input (parseMetadata (α := Rat) env input).diags.toList, ∀ site, r ≠ .panic site)
+
+/-- **C04 holds of the model, all clauses**, for every input, character table, extension set and converter
+    environment. -/
+theorem C04_holds_full : C04_statement_full :=
+  ⟨C04_holds, fun env input =>
+    ⟨(C04_events_in_source_order_with_front_matter env.cs env.ext input).1,
+     (C04_events_in_source_order_with_front_matter env.cs env.ext input).2.1,
+     (C04_events_in_source_order_with_front_matter env.cs env.ext input).2.2.1,
+     (C04_events_in_source_order_with_front_matter env.cs env.ext input).2.2.2,
+     (C04_retained_and_ast_full env input).1, (C04_retained_and_ast_full env input).2.1,
+     (C04_retained_and_ast_full env input).2.2.1, (C04_retained_and_ast_full env input).2.2.2.1,
+     (C04_retained_and_ast_full env input).2.2.2.2,
+     C04_report_labels_prepared env input,
+     (C04_report_prep_never_panics env input).1, (C04_report_prep_never_panics env input).2⟩⟩
 
 end Cook
